@@ -1,6 +1,8 @@
 (** pkt/src/ipv4.rs: ip_csum_partial / ip_csum_fold / ip_csum.
-    ip_csum_partial sums the big-endian 16-bit words (odd trailing byte padded) in a u64 -- which
-    cannot overflow below 2^48 words -- and folds the carries back in until the value fits 16 bits. *)
+    ip_csum_partial sums the big-endian 16-bit words (odd trailing byte padded) in a u64 and folds the
+    carries back in until the value fits 16 bits.  The u64 cannot overflow below 2^48 words (2^49
+    bytes, more than any address space holds); beyond that the model wraps like a release build, so
+    that the result is below 2^16 for every list, as it is in the code. *)
 From RS Require Import Base.Bytes.
 
 Fixpoint csum_words (l : bytes) : N :=
@@ -17,7 +19,7 @@ Fixpoint oc_reduce (fuel : nat) (s : N) : N :=
   | S f => if s <? 65536 then s else oc_reduce f (s mod 65536 + s / 65536)
   end.
 
-Definition csum_partial (l : bytes) : N := oc_reduce 8 (csum_words l).
+Definition csum_partial (l : bytes) : N := oc_reduce 8 (csum_words l mod 18446744073709551616).
 
 Definition csum_fold (running : N) : N :=
   let s1 := (running mod 65536) + (running / 65536) in
